@@ -169,26 +169,27 @@ func (p *probe) HoldV(req int64, rule string) string {
 }
 
 type pStep struct {
-	Op     string     `json:"op"` // req | release | wait | update | incr | remove | clear | setmodel | snapshot | sleep
-	ID     int64      `json:"id"`
-	Method string     `json:"method"`
-	HoldAt string     `json:"hold_at"` // rule at which the request is held ("" = not held)
-	Names  []string   `json:"names"`
-	Layers [][]string `json:"layers"`
-	B      bool       `json:"b"`
-	N      int        `json:"n"`
-	M      int        `json:"m"`
-	Rules  []pRule    `json:"rules"`
-	Text   string     `json:"text"` // raw text instead of Rules (C10)
-	Model  int        `json:"model"`
-	Probe  []string   `json:"probe"`  // names for IsExist / salience / desc queries
-	Async  bool       `json:"async"`  // run this management operation concurrently with the following steps
-	Inside *pStep     `json:"inside"` // a management op performed from inside rule HoldAt of this request (P.Do)
-	Extra  []string   `json:"extra"`  // extra keys injected with the request (C06)
-	Flag   bool       `json:"flag"`   // Req.Flag: rules of kind "cond" return only when it is set
-	NilTag bool       `json:"nil_tag"` // the *StopTag* wrappers are handed a nil tag: the engine dereferences it and panics INSIDE the pooled call
-	RespOnly bool     `json:"resp_only"` // ExecuteRulesWithSpecifiedEM("", nil, "Req", req): no request object, the response slot carries the data
-	WaitMs int        `json:"wait_ms"`
+	Op       string     `json:"op"` // req | release | wait | update | incr | remove | clear | setmodel | snapshot | sleep
+	ID       int64      `json:"id"`
+	Method   string     `json:"method"`
+	HoldAt   string     `json:"hold_at"` // rule at which the request is held ("" = not held)
+	Names    []string   `json:"names"`
+	Layers   [][]string `json:"layers"`
+	B        bool       `json:"b"`
+	N        int        `json:"n"`
+	M        int        `json:"m"`
+	Rules    []pRule    `json:"rules"`
+	Text     string     `json:"text"`     // raw text instead of Rules (C10)
+	BadTail  bool       `json:"bad_tail"` // the text of Rules followed by a rule that does not compile: the whole text must be rejected, nothing of it installed — now or later
+	Model    int        `json:"model"`
+	Probe    []string   `json:"probe"`     // names for IsExist / salience / desc queries
+	Async    bool       `json:"async"`     // run this management operation concurrently with the following steps
+	Inside   *pStep     `json:"inside"`    // a management op performed from inside rule HoldAt of this request (P.Do)
+	Extra    []string   `json:"extra"`     // extra keys injected with the request (C06)
+	Flag     bool       `json:"flag"`      // Req.Flag: rules of kind "cond" return only when it is set
+	NilTag   bool       `json:"nil_tag"`   // the *StopTag* wrappers are handed a nil tag: the engine dereferences it and panics INSIDE the pooled call
+	RespOnly bool       `json:"resp_only"` // ExecuteRulesWithSpecifiedEM("", nil, "Req", req): no request object, the response slot carries the data
+	WaitMs   int        `json:"wait_ms"`
 }
 
 type pReqObs struct {
@@ -450,6 +451,9 @@ func mgmt(gp *engine.GenginePool, st *pStep) (err error, pan string) {
 	text := st.Text
 	if text == "" {
 		text = pRulesText(st.Rules)
+	}
+	if st.BadTail {
+		text += "rule \"zz_broken\" \"never\" salience 1 begin\n  x = ( 1 +\nend\n"
 	}
 	switch st.Op {
 	case "update":
